@@ -36,18 +36,3 @@ func specBlend(src, dst color.NRGBA) color.NRGBA {
 		A: uint8(ba),
 	}
 }
-
-// specBlendNoOverflow states the side conditions under which the integer
-// formula above means what it says: the blended alpha fits a byte, and no
-// intermediate product leaves 32 bits or exceeds a byte after scaling.
-func specBlendNoOverflow(src, dst color.NRGBA, sc, dc uint8) bool {
-	sa := uint64(src.A)
-	da := (uint64(dst.A) * (256 - sa)) >> 8
-	ba := sa + da
-	if ba == 0 || ba > 255 {
-		return false
-	}
-	scale := uint64(1<<24) / ba
-	v := (uint64(sc)*sa + uint64(dc)*da) * scale
-	return v < 1<<32 && v>>24 <= 255
-}
